@@ -13,7 +13,7 @@
     detection/nrps_pks_domains/domain_identification.py : CDSResult.to_json/from_json,
         NRPSPKSDomains.to_json/from_json
     common/secmet/qualifiers/secmet.py : SecMetQualifier.Domain.to_json/from_json
-    common/hmm_rule_parser/cluster_prediction.py : CDSResults.to_json/from_json (with the D25 repair:
+    common/hmm_rule_parser/cluster_prediction.py : CDSResults.to_json/from_json (with the D51 repair:
         definition domains are written sorted), RuleDetectionResults.to_json/from_json,
         Multipliers.__post_init__
     common/serialiser.py : feature_to_json/feature_from_json ; secmet Protocluster.to_biopython[0] /
@@ -24,8 +24,8 @@
         SideloadedResults (to_json/from_json/__init__ checks/build_location/start/end)
     common/hmmer.py : HmmerHit.__post_init__/to_json/from_json, HmmerResults.to_json/from_json/refilter ;
         detection/{full,cluster}_hmmer regenerate_previous_results
-    modules/tta/tta.py : TTAResults.to_json/from_json/new_feature_from_basics ; tta.run_on_record
-    main.py : run_module (with the D26 repair: `is not None` instead of truthiness)
+    modules/tta/tta.py : TTAResults.to_json/from_json/new_feature_from_location ; tta.run_on_record
+    main.py : run_module (with the D52 repair: `is not None` instead of truthiness)
 
   Python floats are carried as exact decimals `mant·10^exp` (normalised); comparisons are exact.
   No imports outside ASV.Model (driver-linkable).
@@ -393,7 +393,7 @@ structure CdsRes where
 deriving DecidableEq, Repr, Inhabited
 
 namespace CdsRes
-/-- `to_json` (repaired, D25): `{key: sorted(val) …}` -/
+/-- `to_json` (repaired, D51): `{key: sorted(val) …}` -/
 def toJson (c : CdsRes) : J :=
   .obj [("cds_name", .str c.cdsName),
         ("domains", .arr (c.domains.map SDomain.toJson)),
@@ -504,12 +504,10 @@ def fromJson : J → Outcome Proto
 def detach (p : Proto) : Proto := { p with number := none, contigEdge := none }
 /-- `record.add_protocluster`: the record supplies number and contig-edge flag again -/
 def attach (p : Proto) (n : Int) (edge : Bool) : Proto := { p with number := some n, contigEdge := some edge }
-/-- the textual layers round-trip on this protocluster's locations (C04/C10 own that fact;
-    evaluated on every generated case as the scope flag) -/
-def textOk (p : Proto) : Bool :=
-  locFromString (locToString p.loc) == some p.loc && locFromString (locToString p.core) == some p.core
+/-- class invariant: both locations have at least one part (every Biopython location does) and
+    the constructor's checks hold -/
 def valid (p : Proto) : Bool :=
-  p.textOk && (ctorOk p.loc p.core p.product).isReuse
+  !p.loc.parts.isEmpty && !p.core.parts.isEmpty && (ctorOk p.loc p.core p.product).isReuse
 end Proto
 
 structure RuleRes where
@@ -962,21 +960,23 @@ structure TTA where
   recordId : String
   gc : Dec
   threshold : Dec
-  /-- (start, strand) per codon -/
-  codons : List (Int × Int)
+  /-- the location of each marked codon (one part, or several when a codon is split over exons) -/
+  codons : List Loc
 deriving DecidableEq, Repr, Inhabited
 
 namespace TTA
-def schemaVersion : Int := 2
+def schemaVersion : Int := 3
+/-- `"TTA codons": [str(feature.location) …]` -/
 def toJson (x : TTA) : J :=
-  .obj [("TTA codons", .arr (x.codons.map fun c => .obj [("start", .int c.1), ("strand", .int c.2)])),
+  .obj [("TTA codons", .arr (x.codons.map fun l => .str (locToString l))),
         ("schema_version", .int schemaVersion), ("record_id", .str x.recordId),
         ("gc_content", .num x.gc), ("threshold", .num x.threshold)]
-def codonFromJson : J → Outcome (Int × Int)
-  | .obj kv => do
-    let s ← reqInt kv "start"
-    let d ← reqInt kv "strand"
-    pure (s, d)
+/-- `location_from_string(location)` -/
+def codonFromJson : J → Outcome Loc
+  | .str s =>
+    match locFromString s with
+    | some l => .reuse l
+    | none => .refuse .value
   | _ => .refuse .type
 /-- `TTAResults.from_json` under the current option `tta_threshold = opt` -/
 def fromJson (opt : Dec) : J → Outcome TTA
@@ -1001,16 +1001,18 @@ def regenerate (opt : Dec) (j : J) : Outcome TTA :=
   match j with
   | .obj [] => .discard
   | _ => fromJson opt j
-/-- the features `new_feature_from_basics` creates: `[start, start+3)` on the codon's strand -/
-def features (x : TTA) : List (Int × Int × Int) := x.codons.map fun c => (c.1, c.1 + 3, c.2)
+/-- the features `new_feature_from_location` creates: one per stored location -/
+def features (x : TTA) : List Loc := x.codons
 /-- `run_on_record`: previous results are kept only for the record they were computed on -/
 def keptByRun (x : TTA) (recordId : String) : Bool := x.recordId == recordId
 /-- `add_to_record` refuses another record -/
-def addToRecord (x : TTA) (recordId : String) : Outcome (List (Int × Int × Int)) :=
+def addToRecord (x : TTA) (recordId : String) : Outcome (List Loc) :=
   if x.recordId != recordId then .refuse .value else .reuse x.features
-/-- `detect`: what a fresh run stores, given all TTA codons of the record's genes -/
-def detect (recordId : String) (gc opt : Dec) (allCodons : List (Int × Int)) : TTA :=
+/-- `detect`: what a fresh run stores, given the locations of all TTA codons of the record's genes -/
+def detect (recordId : String) (gc opt : Dec) (allCodons : List Loc) : TTA :=
   if Dec.lt gc opt then ⟨recordId, gc, opt, []⟩ else ⟨recordId, gc, opt, allCodons⟩
+/-- Biopython locations always have at least one part -/
+def locsOk (l : List Loc) : Bool := l.all fun x => !x.parts.isEmpty
 end TTA
 
 /-! ### main.run_module -/
@@ -1021,7 +1023,7 @@ structure RunTrace (ρ : Type) where
   stored : Option ρ
   ranWith : Option (Option ρ)
 
-/-- `run_module(record, module, options, module_results, timings)` (repaired, D26: a regenerated
+/-- `run_module(record, module, options, module_results, timings)` (repaired, D52: a regenerated
     object is kept when it `is not None`, whatever its truthiness).
     `previous` – the JSON popped from `module_results`; `regen` – the module's
     `regenerate_previous_results`; `inAll` – `module in options.all_enabled_modules`;
